@@ -81,6 +81,11 @@ def run(v):
     ecov = run_cmdline_property(v, efam, None, replay_cfg="MC_GroupLine_replay.cfg", module="MC_GroupLine",
                                 signature=cmdline_sig.alt_env_sig, trace_module="GroupLineTrace", name="C06e")
     cov = merge_cov(cov, ecov, "alt_env")
+    # a positional branch of a choice: a word that does not convert fails the run, it never turns into absence
+    pfam = D.alt_pos_family(SEED + 66, 12 if q else 60, maxlen=3 if q else 4, budget=3000 if q else 30000)
+    pcov = run_cmdline_property(v, pfam, None, replay_cfg="MC_GroupLine_replay.cfg", module="MC_GroupLine",
+                                signature=cmdline_sig.signature, trace_module="GroupLineTrace", name="C06p")
+    cov = merge_cov(cov, pcov, "alt_pos")
     # the documented exception: `catch` turns an invalid value into absence (a typed one is then left over)
     cfam = D.catch_family(SEED + 65, 12 if q else 48, maxlen=2 if q else 3, budget=1500 if q else 12000)
     ccov = run_cmdline_property(v, cfam, None, signature=cmdline_sig.signature, name="C06c")
